@@ -89,6 +89,7 @@ OnStep(s, e, ln) ==
                                   /\ Snap(r.c) = e.snap /\ wk = e.wake
                                   /\ ProducerFinished(r.c) = e.pfin,
                            c |-> r.c]
+             ELSE IF e.cop = "cont" THEN [ok |-> FALSE, c |-> s.c]   \* a scheduling point inside a Reader operation
              ELSE LET r == CStep(s.c, e.cop, e.w)
                   IN [ok |-> RCore(r.r) = RCore(e.r) /\ Snap(r.c) = e.snap, c |-> r.c]
   IN [s EXCEPT !.os = os2, !.steps = s.steps + 1,
